@@ -129,6 +129,8 @@ theorem acqCLoop_rep (p all ws got) : (acqCLoop p all ws got).repaired := by
   cases ws
   · exact callLoop_rep ..
   · simp [acqCLoop, Next.repaired, K.repaired]
+theorem acqWLoop_rep (p ws acc) : (acqWLoop p ws acc).repaired := by
+  cases ws <;> simp [acqWLoop, Next.repaired, K.repaired]
 theorem acqCIter_rep (p all rest got) : (acqCIter p all rest got).repaired := by
   unfold acqCIter; split
   · exact acqCLoop_rep ..
@@ -179,6 +181,7 @@ theorem resume_rep (k : K) (b : Bool) (hk : k.repaired = true) : (resume k b).re
     · exact acqCIter_rep ..
   · exact acqCIter_rep ..
   · exact callLoop_rep ..
+  · exact acqWLoop_rep ..
 
 theorem start_rep (pw : Pid → List Wid) (op : Op) (h : op.repaired = true) : (start pw op).repaired := by
   cases op <;> simp only [start] <;> simp only [Op.repaired] at h
@@ -193,6 +196,8 @@ theorem start_rep (pw : Pid → List Wid) (op : Op) (h : op.repaired = true) : (
   · exact aliveLoop_rep ..
   · split <;> simp [Next.repaired, K.repaired]
   · exact acqCLoop_rep ..
+  · simp [Next.repaired, K.repaired]
+  · exact acqWLoop_rep ..
 
 /-- All scripts use only the repaired operations, and every active call is owner-checked. -/
 def RepairedCfg (c : Cfg) : Prop :=
